@@ -482,6 +482,9 @@ func main() {
 		if byFile == nil {
 			fail("unknown layout " + c.Lay)
 		}
+		if len(c.TV) != len(rows) || len(c.Expected) != 3 || len(c.Impl) != 3 {
+			fail("case does not fit the dataset's row universe")
+		}
 		// every file carries the same base name, in its own partition directory
 		fname := func(f int) string { return filepath.Join(inp.Dataset.PartDirs[f-1], inp.Dataset.FileName) }
 		for f := range byFile {
@@ -804,6 +807,9 @@ func main() {
 			before, _, err := readMeasurement(env, rel, "")
 			if err != nil {
 				fail("overlap read before: " + err.Error())
+			}
+			if len(c.TVA) != len(rows) || len(c.TVB) != len(rows) || len(c.Final) != 3 {
+				fail("overlap behaviour does not fit the dataset's row universe")
 			}
 			selected := map[string]bool{} // tuple selected by A or B
 			expFinal := map[string][]string{}
